@@ -27,26 +27,63 @@ theorem natAbs_tmod_lt (a b : Int) (hb : b ≠ 0) : (a.tmod b).natAbs < b.natAbs
   rw [Int.natAbs_tmod]
   exact Nat.mod_lt _ (by omega)
 
-/-- The translated `while` loop of `gcd`: with `|b| + 1` iterations of budget it ends in the state
-    `(gcdLoop a b, 0)`. -/
-theorem gcd_loop0_eq : ∀ (fuel : Nat) (a b : Int), b.natAbs + 1 ≤ fuel →
-    gcd_loop0 fuel a b = .ok (Gcd.gcdLoop a b, 0) := by
+/-! ### Euclid's loop, whatever the source calls it
+
+`gcd` delegates to *some* loop or helper (`gcd_callee0`, an alias the translator emits for the first thing `gcd` calls).  The two
+ways of writing Euclid's iteration are covered by one generic lemma each — the recurrence is all they need — so the proofs
+below do not mention the helper's name: a `while` loop (the state `(a, b)` comes back) and a tail-recursive helper function
+(the value comes back).  Renaming the helper, turning the loop into such a helper or back, `loop { if b == 0 { break } … }`
+all leave `gcd_eq_model` valid; a different iteration scheme (e.g. two remainders per round) needs its own lemma here. -/
+
+/-- `while b != 0 { a %= b; swap(a, b) }` as a loop definition: budget `|b| + 1` ⇒ final state `(gcdLoop a b, 0)`. -/
+theorem euclid_pair_shape (f : Nat → Int → Int → Except Panic (Int × Int))
+    (hs : ∀ n a b, f (n + 1) a b = if b = 0 then .ok (a, b) else f n b (a.tmod b)) :
+    ∀ (fuel : Nat) (a b : Int), b.natAbs + 1 ≤ fuel → f fuel a b = .ok (Gcd.gcdLoop a b, 0) := by
   intro fuel
   induction fuel with
   | zero => intro a b h; omega
   | succ n ih =>
     intro a b h
+    rw [hs]
     by_cases hb : b = 0
     · subst hb
-      simp [gcd_loop0, gcdLoop_zero]
+      simp [gcdLoop_zero]
     · have hlt := natAbs_tmod_lt a b hb
-      simp [gcd_loop0, hb, gcdLoop_step a b hb, ih b (a.tmod b) (by omega)]
+      rw [if_neg hb, gcdLoop_step a b hb, ih b (a.tmod b) (by omega)]
+
+/-- `fn euclid(a, b) { if b == 0 { return a } euclid(b, a % b) }` as a recursive definition. -/
+theorem euclid_value_shape (f : Nat → Int → Int → Except Panic Int)
+    (hs : ∀ n a b, f (n + 1) a b = if b = 0 then .ok a else f n b (a.tmod b)) :
+    ∀ (fuel : Nat) (a b : Int), b.natAbs + 1 ≤ fuel → f fuel a b = .ok (Gcd.gcdLoop a b) := by
+  intro fuel
+  induction fuel with
+  | zero => intro a b h; omega
+  | succ n ih =>
+    intro a b h
+    rw [hs]
+    by_cases hb : b = 0
+    · subst hb
+      simp [gcdLoop_zero]
+    · have hlt := natAbs_tmod_lt a b hb
+      rw [if_neg hb, gcdLoop_step a b hb, ih b (a.tmod b) (by omega)]
+
+/-- Proves the recurrence of `gcd_callee0` by unfolding it one step (`src_def`: without naming it). -/
+macro "euclid_step" : tactic =>
+  `(tactic| (intro n a b
+             simp only [gcd_callee0, src_def]
+             by_cases hb : b = 0 <;> simp [hb] <;> (try (split <;> simp_all))))
 
 /-- `gcd` as translated from the source = the model's `gcd`, for every budget `≥ |b| + 1`. -/
 theorem gcd_eq_model (fuel : Nat) (a b : Int) (h : b.natAbs + 1 ≤ fuel) :
     GcdSrc.gcd fuel a b = .ok (Gcd.gcd a b) := by
-  have hl := gcd_loop0_eq fuel (a.natAbs : Int) (b.natAbs : Int) (by rw [Int.natAbs_natCast]; exact h)
-  simp only [GcdSrc.gcd, Gcd.gcd, hl]
+  have hb : ((b.natAbs : Nat) : Int).natAbs + 1 ≤ fuel := by rw [Int.natAbs_natCast]; exact h
+  first
+  | (have hl := euclid_pair_shape gcd_callee0 (by euclid_step) fuel (a.natAbs : Int) (b.natAbs : Int) hb
+     simp only [gcd_callee0] at hl
+     simp only [GcdSrc.gcd, Gcd.gcd, hl])
+  | (have hl := euclid_value_shape gcd_callee0 (by euclid_step) fuel (a.natAbs : Int) (b.natAbs : Int) hb
+     simp only [gcd_callee0] at hl
+     simp only [GcdSrc.gcd, Gcd.gcd, hl])
 
 /-- `lcm` as translated from the source = the model's `lcm` (value, or `divzero` for `(0, 0)`). -/
 theorem lcm_eq_model (fuel : Nat) (a b : Int) (h : b.natAbs + 1 ≤ fuel) :
